@@ -239,9 +239,11 @@ def g_split(integ):
       # one kernel inside fwd_acceleration) and separate in step1()/step2(): outside this claim
       return not any(h.startswith("smooth:") and ("factor" in h or "solve" in h) for h in hosts)
 
-    a = [e for e in _launch_seq("forward:step", facts) if keep(e)]
-    b = [e for e in _launch_seq("forward:step1", facts) + _launch_seq("forward:step2", facts) if keep(e)]
-    S = summaries([e.kernel for e in a + b if e.kind == "launch"])
+    full_a = _launch_seq("forward:step", facts)
+    full_b = _launch_seq("forward:step1", facts) + _launch_seq("forward:step2", facts)
+    a = [e for e in full_a if keep(e)]
+    b = [e for e in full_b if keep(e)]
+    S = summaries([e.kernel for e in full_a + full_b if e.kind == "launch"])
 
     def key(e):
       if e.kind == "launch":
@@ -304,6 +306,32 @@ def g_split(integ):
               break
       if len(bad) > 5:
         break
+    # the fused / separate factorisation path itself is not compared launch by launch, but what it CONSUMES
+    # is: for every Data array such a launch reads (and no launch of the path writes), the launches and fills
+    # that wrote it earlier in the step must be the same in both forms (reaching definitions)
+    def reaching(full):
+      path_w = set()
+      for e in full:
+        if not keep(e):
+          path_w |= touched(e)[1]
+      res = {}
+      for i, e in enumerate(full):
+        if keep(e):
+          continue
+        for x in touched(e)[0]:
+          if not x.startswith("d.") or x in path_w:
+            continue
+          ws = tuple(key(p)[:2] if p.kind == "launch" else key(p) for p in full[:i] if keep(p) and x in touched(p)[1])
+          res.setdefault(x, set()).add(ws)
+      return res
+
+    ra, rb = reaching(full_a), reaching(full_b)
+    diff = []
+    for x in sorted(set(ra) & set(rb)):
+      if ra[x] != rb[x]:
+        da = sorted({w for ws in ra[x] for w in ws} ^ {w for ws in rb[x] for w in ws}, key=str)
+        diff.append(f"{x}: writers seen by the factor/solve path differ: {[str(w[1]) for w in da][:4]}")
+    out.append(Result(oid=f"{tag}#factor_path_inputs", status="discharged" if not diff and (set(ra) & set(rb)) else ("violated" if diff else "crash"), reason="no common input of the factor/solve path found", kind="SPLIT", func="forward:step", backend="host-flow analysis (reaching definitions)", meta={"function": "forward:step", "goal": "every Data array consumed by the (fused in step / separate in step1;step2) inertia factor-solve path has been produced by the same launches in both forms", "inputs_compared": sorted(set(ra) & set(rb)), "differences": diff[:5]}))
     out.append(Result(oid=f"{tag}#dependency_order", status="discharged" if not bad else "violated", kind="SPLIT", func="forward:step", backend="host-flow analysis", meta={"function": "forward:step", "goal": "launches that share an array (one of them writing) run in the same relative order in step() and in step1();step2()", "reordered": bad}))
     return out
 
